@@ -110,8 +110,13 @@ def _summary(spec, baseline, deviations, ex):
 
 
 def run_item(item):
-    """item = (spec, baseline, [deviation dict, ...], horizon, monitors) -> list of summaries (template from cache)"""
-    spec, baseline, devs_list, horizon, monitors = item
+    """item = (spec, baseline, [deviation dict, ...], horizon, monitors[, baseline draw keys]) -> list of summaries
+    (template from cache).  With the baseline's draw keys given, every single-deviation execution is followed up:
+    draws of the *same handler at the same leg* that exist only because of the deviation (the confirmation draw of an
+    event that now fires, the lifting choice) are deviated as well -- otherwise they would only ever receive their
+    baseline answer.  A follow-up is the compound environment answer "this handler's event fires and is rejected"."""
+    spec, baseline, devs_list, horizon, monitors = item[:5]
+    base_keys = item[5] if len(item) > 5 else None
     tpl = _tpl(spec)
     out = []
     for devs in devs_list:
@@ -120,6 +125,20 @@ def run_item(item):
         if devs:
             s["draws"] = None  # only the default execution's draw list is needed by the enumerator
         out.append(s)
+        if base_keys is not None and len(devs) == 1:
+            (k0, a0), = devs.items()
+            if k0[0] == "resume":
+                continue
+            fresh = [d for d in ex.policy.draws if d[0] not in base_keys and d[0][0] == k0[0]
+                     and d[0][2:4] == k0[2:4]]
+            for key, nalt, _ in fresh[:3]:
+                for a in range(nalt - 1):
+                    d2 = {k0: a0, key: a}
+                    ex2 = execute(tpl, baseline, d2, horizon, monitors, spec.info)
+                    s2 = _summary(spec, baseline, d2, ex2)
+                    s2["draws"] = None
+                    s2["followup"] = True
+                    out.append(s2)
     return out
 
 
@@ -141,7 +160,8 @@ def build_all(specs, cores):
     return failures
 
 
-def explore(specs, monitors, k, baselines, cores, max_per_baseline=None, derive=None, resume_legs=()):
+def explore(specs, monitors, k, baselines, cores, max_per_baseline=None, derive=None, resume_legs=(),
+            followup=False):
     """Enumerate all executions with <= k deviations around each baseline for every spec.
     derive(spec, default summary) may return further specs (e.g. the same wiring with all time scales shortened so
     that end-of-chain / sampling events fall inside the horizon); they are explored in the same way.
@@ -192,16 +212,19 @@ def explore(specs, monitors, k, baselines, cores, max_per_baseline=None, derive=
     chunk = 12
     items = []
     for s, b, devs in level:
+        bk = frozenset(d[0] for d in defaults[(s.name, b)]["draws"]) if followup else None
         for j in range(0, len(devs), chunk):
-            items.append((s, b, devs[j:j + chunk], s.horizon, monitors))
+            items.append((s, b, devs[j:j + chunk], s.horizon, monitors, bk))
     second = []
-    for (s, b, dl, _, _), res in zip(items, par.pmap(run_item, items, cores)):
+    for (s, b, dl, _, _, _), res in zip(items, par.pmap(run_item, items, cores)):
         ps = stats["per_spec"][s.name]
         for r in res:
             _account(stats, ps, r, bad)
+            if r.get("followup"):
+                stats["followups"] = stats.get("followups", 0) + 1
     # level 2 (thorough): deviations at a later draw of each level-1 execution -- needs that execution's draw list
     if k >= 2:
-        items = [(s, b, dl, s.horizon, monitors, True) for (s, b, dl, _, _) in items]
+        items = [(s, b, dl, s.horizon, monitors, True) for (s, b, dl, _, _, _) in items]
         for (s, b, dl, _, _, _), res in zip(items, par.pmap(_run_item_level2, items, cores)):
             ps = stats["per_spec"][s.name]
             for r in res:
